@@ -8,6 +8,7 @@ package gen
 var ExecProfiles = []string{
 	`query Q ( $v : Int = 1 @d , $w : [ [ In ! ] ] ! = [ [ { a : 1 } ] ] ) @d ( x : $v ) { al : f ( a : 1 , b : 1.5 , c : "s" , d : """b""" , e : true , g : null , h : EN , i : [ 1 , $v ] , j : { k : $w , l : { m : [ ] } } ) @d @e ( y : 2 ) { g ... F @d ... on T @d { h } ... @d { i } ... { j } } k }`,
 	`mutation M { m ( in : { a : "x" } ) { id } } subscription S { s } fragment F on T @d { f ... G } fragment G ( $fv : Int = 2 ) on U { g } { anon }`,
+	`query Q ( $a : Int = [ { k : EN } ] @d ( x : [ { k : EN } ] ) , $c : [ Int ! ] ! ) @e ( y : $a ) { f ( z : { k : [ $a ] } ) @e ( y : $a ) ... F @e ( y : $a ) ... on T @e ( y : $a ) { g } on : on ( on : on ) true null } fragment F ( $b : Int @d ( x : 2 ) ) on T @e ( y : $b ) { h } subscription fragment { query }`,
 	`{ a ( x : """
   multi
     line
@@ -28,6 +29,17 @@ enum E @d { "vd" A @d B } extend enum E @d { C } extend enum E @d
 input In @d { "id" x : Int = 1 @d y : [ In ] } extend input In @d { z : Int } extend input In @d
 "dd" directive @d ( "ad" a : Int = 1 @e ) repeatable on | FIELD | OBJECT directive @e on SCHEMA directive @sd ( a : Int ) on SCHEMA
 type M { m : Int } type S { s : Int } interface J { f : Int } interface K { f : Int }`,
+	// every constant context (directive site, default value) holds an enum value nested in a list and an object,
+	// so a single inserted `$` turns it into a variable at that site
+	`schema @d ( a : [ { k : EN } ] ) { query : Q } extend schema @d ( a : [ { k : EN } ] )
+scalar Sc @d ( a : [ { k : EN } ] ) extend scalar Sc @d ( a : [ { k : EN } ] )
+type Q @d ( a : [ { k : EN } ] ) { f ( x : Int = [ { k : EN } ] @d ( a : [ { k : EN } ] ) ) : Int @d ( a : [ { k : EN } ] ) }
+extend type Q @d ( a : [ { k : EN } ] ) { g ( x : Int = EN @d ( a : EN ) ) : Int @d ( a : EN ) } extend type Q @d ( a : EN )
+interface I @d ( a : [ { k : EN } ] ) { f : Int @d ( a : EN ) } extend interface I @d ( a : [ { k : EN } ] ) { g ( y : Int @d ( a : EN ) ) : Int }
+union U @d ( a : [ { k : EN } ] ) = Q extend union U @d ( a : [ { k : EN } ] ) = Q
+enum E @d ( a : [ { k : EN } ] ) { A @d ( a : [ { k : EN } ] ) } extend enum E @d ( a : EN ) { B @d ( a : EN ) }
+input In @d ( a : [ { k : EN } ] ) { x : Int = [ { k : EN } ] @d ( a : [ { k : EN } ] ) } extend input In @d ( a : EN ) { y : Int = EN @d ( a : EN ) } extend input In @d ( a : [ EN ] )
+directive @d ( a : Int = [ { k : EN } ] @d ( a : [ { k : EN } ] ) ) repeatable on FIELD`,
 	`type A { f : Int }
 """
 block
